@@ -667,7 +667,7 @@ def rand_tdm_spec(rng, idx, features):
             if rng.random() < 0.6:
                 i = unused.pop() if unused else rng.randrange(k)
                 pars[j] = {"loop": i}
-                if "loopexpr" in features and kind != "meas" and rng.random() < 0.3:
+                if "loopexpr" in features and rng.random() < 0.3:      # also the phase of a measurement
                     pars[j]["k"] = rng.choice([2, -1, 0.5])
         if kind != "meas" and "dagger" in features and rng.random() < 0.3:
             op["dagger"] = True
